@@ -175,6 +175,13 @@ func (a *Act) callWithArgs(ctx *blockCtx, c *ssa.CallCommon, args []Val, fnv Val
 	n := a.ordinalOf(b.Instrs[idx], shortName(key))
 	a.anchors(ctx, shortName(key), n, false, b, idx)
 	a.pending = append(a.pending, pendingAnchor{callee: shortName(key), n: n})
+	if key != shortName(key) {
+		// qualified anchor "at call file.New#0": ordinal among the calls to exactly this function
+		// (a bare name counts every callee of that name: errors.New, parser.New, file.New ...)
+		nq := a.ordinalOfQ(b.Instrs[idx])
+		a.anchors(ctx, key, nq, false, b, idx)
+		a.pending = append(a.pending, pendingAnchor{callee: key, n: nq})
+	}
 
 	if v, tup, ok := a.modelCall2(ctx, key, callee, c, args, resT, pos); ok {
 		return v, tup
@@ -1213,6 +1220,52 @@ func (a *Act) ordinalOf(ins ssa.Instruction, name string) int {
 		}
 	}
 	return a.ordinals[ins]
+}
+
+// ordinalOfQ: ordinal (by source position) of a static call among the calls to the same function.
+func (a *Act) ordinalOfQ(ins ssa.Instruction) int {
+	if a.ordinalsQ == nil {
+		a.ordinalsQ = map[ssa.Instruction]int{}
+		type ent struct {
+			ins      ssa.Instruction
+			pos      token.Pos
+			blk, idx int
+		}
+		by := map[string][]ent{}
+		for _, b := range a.fn.Blocks {
+			for i, in := range b.Instrs {
+				var cc *ssa.CallCommon
+				switch x := in.(type) {
+				case *ssa.Call:
+					cc = &x.Call
+				case *ssa.Defer:
+					cc = &x.Call
+				case *ssa.Go:
+					cc = &x.Call
+				}
+				if cc == nil || cc.IsInvoke() || cc.StaticCallee() == nil {
+					continue
+				}
+				k := funcKey(cc.StaticCallee())
+				by[k] = append(by[k], ent{in, in.Pos(), b.Index, i})
+			}
+		}
+		for _, es := range by {
+			sort.SliceStable(es, func(i, j int) bool {
+				if es[i].pos != es[j].pos {
+					return es[i].pos < es[j].pos
+				}
+				if es[i].blk != es[j].blk {
+					return es[i].blk < es[j].blk
+				}
+				return es[i].idx < es[j].idx
+			})
+			for k, e := range es {
+				a.ordinalsQ[e.ins] = k
+			}
+		}
+	}
+	return a.ordinalsQ[ins]
 }
 
 func callName(c *ssa.CallCommon) string {
